@@ -424,14 +424,25 @@ pub fn only_sequences_advanced(before: &Obs, after: &Obs) -> bool {
     }
     // MCP servers: a re-applied "create / update and release" pushes the released value into the server's history list a
     // second time; equal once history entries with the same value id are counted once
+    // (a re-applied release also lists the value that is current - its id equals the current value's - and gives the released
+    // value the current value's id; the content of all three is the same either way)
     let mcp_dedup = |o: &Obs| -> Vec<(String, String)> {
         o.mcp
             .iter()
             .map(|(k, v)| {
                 let mut j: serde_json::Value = serde_json::from_str(v).unwrap_or(serde_json::Value::Null);
+                let cur_id = j.get("currentValue").or_else(|| j.get("current_value")).and_then(|c| c.get("id")).and_then(|x| x.as_u64()).unwrap_or(u64::MAX);
                 if let Some(h) = j.get_mut("histories").and_then(|h| h.as_array_mut()) {
                     let mut seen = std::collections::BTreeSet::new();
-                    h.retain(|e| seen.insert(e.get("id").and_then(|x| x.as_u64()).unwrap_or(0)));
+                    h.retain(|e| {
+                        let id = e.get("id").and_then(|x| x.as_u64()).unwrap_or(0);
+                        id != cur_id && seen.insert(id)
+                    });
+                }
+                for rk in ["releaseValue", "release_value"] {
+                    if let Some(r) = j.get_mut(rk).and_then(|r| r.as_object_mut()) {
+                        r.remove("id");
+                    }
                 }
                 (k.clone(), j.to_string())
             })
@@ -1625,15 +1636,26 @@ fn without_repeated_history(o: &Obs) -> (Obs, Vec<String>) {
     let mut mcp_changed = false;
     for (k, v) in o.mcp.iter_mut() {
         let mut j: serde_json::Value = serde_json::from_str(v).unwrap_or(serde_json::Value::Null);
+        let cur_id = j.get("currentValue").or_else(|| j.get("current_value")).and_then(|c| c.get("id")).and_then(|x| x.as_u64()).unwrap_or(u64::MAX);
+        let mut changed = false;
         if let Some(h) = j.get_mut("histories").and_then(|h| h.as_array_mut()) {
             let mut seen = std::collections::BTreeSet::new();
             let before = h.len();
-            h.retain(|e| seen.insert(e.get("id").and_then(|x| x.as_u64()).unwrap_or(0)));
-            if h.len() != before {
-                keys.push(format!("mcp {}", k));
-                mcp_changed = true;
-                *v = j.to_string();
+            h.retain(|e| {
+                let id = e.get("id").and_then(|x| x.as_u64()).unwrap_or(0);
+                id != cur_id && seen.insert(id)
+            });
+            changed = h.len() != before;
+        }
+        if changed {
+            for rk in ["releaseValue", "release_value"] {
+                if let Some(r) = j.get_mut(rk).and_then(|r| r.as_object_mut()) {
+                    r.remove("id");
+                }
             }
+            keys.push(format!("mcp {}", k));
+            mcp_changed = true;
+            *v = j.to_string();
         }
     }
     if mcp_changed {
